@@ -1383,7 +1383,7 @@ def main(tier, seed, replay=None):
         out.sensitivity['spec:Bug=' + b] = 'refuted (%s) after %d states' % (rb.violated, rb.distinct)
 
     # 2. spec -> code: TLC behaviours of the design spec driven through the real code
-    nsim = 150 if quick else 1500
+    nsim = 120 if quick else 1500
     rs, behs = tlc.simulate('MC_TocCache.tla', 'SIM_TocCache.cfg', num=nsim, depth=70, seed=seed % 100000,
                             timeout=1800)
     out.add_tlc('SIM_TocCache.cfg (-simulate num=%d)' % nsim, rs)
@@ -1405,8 +1405,8 @@ def main(tier, seed, replay=None):
     exp_scs = []
     nexp = 0
     for (sc, _e, hp), t in zip(sims, sim_traces):
-        if hp and nexp < (6 if quick else 30):
-            more = expand_offsets(sc, t, limit=48 if quick else None)
+        if hp and nexp < (4 if quick else 30):
+            more = expand_offsets(sc, t, limit=40 if quick else None)
             if more:
                 nexp += 1
                 exp_scs += more
@@ -1425,11 +1425,11 @@ def main(tier, seed, replay=None):
     for mode in SWEEP_MODES:
         for target in ('log', 'param'):
             scs += sweep_scenarios(base, 0, LC, 1, PC, lens_small, mode, target, chunk=12,
-                                   stride=1 if (not quick or mode in ('rw_cut', 'rw_crash')) else 3)
+                                   stride=1 if (not quick or mode in ('rw_cut', 'rw_crash')) else 4)
     scs += sweep_scenarios(base, 0, LC, 1, PC, file_lengths(pop_traces[2]), 'rw_cut', 'param', chunk=12, pv=3)
     if quick:
-        scs += sweep_scenarios(big, 0, LC, 1, PC, lens_big, 'rw_cut', 'log', chunk=12, stride=7)
-        scs += sweep_scenarios(big, 0, LC, 1, PC, lens_big, 'rw_crash', 'param', chunk=12, stride=11)
+        scs += sweep_scenarios(big, 0, LC, 1, PC, lens_big, 'rw_cut', 'log', chunk=12, stride=13)
+        scs += sweep_scenarios(big, 0, LC, 1, PC, lens_big, 'rw_crash', 'param', chunk=12, stride=17)
     else:
         for mode in SWEEP_MODES:
             for target in ('log', 'param'):
@@ -1447,9 +1447,9 @@ def main(tier, seed, replay=None):
     scs += garbage_scenarios(base, 0, LC, 1, PC, sorted(GARBAGE))
     if not quick:
         scs += garbage_scenarios(big, 0, LC, 1, PC, sorted(GARBAGE))
-    scs += roundtrip_scenarios(rng, 60 if quick else 600, [0, 1, 2, 3, 5, 8, 13, 30] + ([] if quick else [90, 300]))
+    scs += roundtrip_scenarios(rng, 40 if quick else 600, [0, 1, 2, 3, 5, 8, 13, 30] + ([] if quick else [90, 300]))
     scs += crc_scenarios(rng, 20 if quick else 200)
-    scs += random_scenarios(rng, 300 if quick else 6000)
+    scs += random_scenarios(rng, 200 if quick else 6000)
     scs += exp_scs
     traces = run_scenarios(scs)
     all_scs = sim_scs + pops + scs
